@@ -53,6 +53,10 @@ def run(tier, seed):
                     raise ToolError(f"the harness's scratch interpreter was rejected by Evm.tla: {inv} on {rec.get('hex')}")
                 v.violation(inv, f"{inv} on path of thread {rec.get('tid')} of program {rec.get('hex', '')[:200]}",
                             {"kind": "constant-program", "hex": rec.get("hex"), "tid": rec.get("tid"), "tags": rec.get("tags")})
+    import vmstate
+    stack = vmstate.run(tier, seed)
+    vmstate.report(PROP, v, stack)
+    states += stack["states"]
     log(f"[C07] {info['programs']} programs, {cnt['paths']} paths, {cnt['steps']} concrete steps and {cnt['nodes']} symbolic nodes verified, "
         f"{cnt['bad']} paths failing")
     sample = None
@@ -62,7 +66,8 @@ def run(tier, seed):
         sample = {"hex": r.get("hex"), "steps": len(r.get("steps", [])), "nodes": len(r.get("nodes", [])), "tags": r.get("tags")}
     cov = {"programs": info["programs"], "disagreements_checked": cnt["bad"], "paths": cnt["paths"],
            "concrete_steps_verified": cnt["steps"], "symbolic_nodes_verified": cnt["nodes"],
-           "states": states, "transitions": trans, "samples": [sample]}
+           "states": states, "transitions": trans, "samples": [sample],
+           "operand_stack_model": vmstate.coverage(stack)}
     return v.finish("translation_validation", cov,
                     ["TLC + community modules", "Word.tla (checked against native arithmetic at small widths)",
                      "paths are rebuilt from the Exec/Fork/Advance hooks; stored states are matched to threads by retirement order",
